@@ -48,6 +48,13 @@ pub fn run(spec: &Value) -> Value {
         Ok(Err(_)) => json!("err"),
         Err(_) => json!("panic"),
     };
+    // the same serde form read from an io::Read (bincode then hands the visitor owned / transient bytes, not a borrowed slice)
+    let r5 = catch_unwind(AssertUnwindSafe(|| bincode::deserialize_from::<_, RangeProof<RistrettoPoint>>(std::io::Cursor::new(framed.clone()))));
+    rec["bincode_de_reader"] = match r5 {
+        Ok(Ok(p)) => json!(format!("ok:{}", hex(&p.to_bytes()))),
+        Ok(Err(_)) => json!("err"),
+        Err(_) => json!("panic"),
+    };
     let r4 = catch_unwind(AssertUnwindSafe(|| RangeProof::<RistrettoPoint>::extension_degree_from_proof_bytes(&bytes)));
     rec["tag_from_bytes"] = match r4 {
         Ok(Ok(d)) => json!(d as u8),
